@@ -271,20 +271,39 @@ def read_lines(path, wanted):
     return got
 
 
+RUN_STARTS = ("Reset", "New", "Start")
+
+
 def extract_run(path, line):
-    """The lines of the run (Reset .. End) that contains `line`, as raw strings, plus the
-    number of the Reset line."""
+    """The lines of the run that contains `line`, as raw strings, plus the number of its first line.  Runs start with a
+    Reset (chunk logs), New (session logs) or Start (interop logs) event; logs without run structure (AMF0, messages,
+    clock, pairs, resources, handshake) yield the failing event with a little context before it."""
     run = []
     start = 1
+    structured = False
     with open(path) as f:
         for i, s in enumerate(f, 1):
-            if '"ev":"Reset"' in s and json.loads(s).get("ev") == "Reset":
+            head = s[:4000]
+            is_start = False
+            if any(('"ev":"%s"' % t) in head or ('"ev": "%s"' % t) in head for t in RUN_STARTS):
+                try:
+                    is_start = json.loads(s).get("ev") in RUN_STARTS
+                except ValueError:
+                    is_start = False
+            if is_start:
+                structured = True
                 if i <= line:
                     run = []
                     start = i
                 else:
                     break
             run.append(s)
+            if not structured and i >= line:
+                break
+    if not structured:
+        keep = 40 if '"ev":"Proc"' in "".join(run[-3:]) or '"ev":"HsNew"' in "".join(run[:50]) else 2
+        start = max(1, line - keep + 1)
+        run = run[start - 1:line]
     return start, run
 
 
